@@ -313,6 +313,27 @@ class TTuple(T):
         return STuple([t.wrap(z3.simplify(dt.accessor(0, i)(term))) for i, t in enumerate(self.ts)])
 
 
+class _TNDArray(T):
+    """1-d float ndarray: length, values, NaN mask (entry j is NaN iff nan[j])"""
+    name = 'NDArray'
+
+    def sort(self):
+        return _datatype('NDArray', [('n', z3.IntSort()), ('arr', z3.ArraySort(z3.IntSort(), z3.RealSort())),
+                                     ('nan', z3.ArraySort(z3.IntSort(), z3.BoolSort()))])
+
+    def wrap(self, term, home=None):
+        return SNDArray(self, term, home)
+
+    def mk(self, n, arr, nan):
+        return self.sort().constructor(0)(n, arr, nan)
+
+    def wf(self, term):
+        return [z3.simplify(self.sort().accessor(0, 0)(term)) >= 0]
+
+
+TNDArray = _TNDArray()
+
+
 class TArr(T):
     """a raw (ghost) array, e.g. the stream history: index -> element"""
 
@@ -518,6 +539,22 @@ class SList(SCompound):
         return self.typ.e.wrap(self.load(idx), home=(self, idx))
 
     def __repr__(self): return f"SList<{self.typ.name}>"
+
+
+class SNDArray(SCompound):
+    @property
+    def n(self): return z3.simplify(self.typ.sort().accessor(0, 0)(self.get()))
+
+    @property
+    def arr(self): return z3.simplify(self.typ.sort().accessor(0, 1)(self.get()))
+
+    @property
+    def nan(self): return z3.simplify(self.typ.sort().accessor(0, 2)(self.get()))
+
+    def store(self, idx, val, isnan=False):
+        self.set(self.typ.mk(self.n, z3.Store(self.arr, idx, val), z3.Store(self.nan, idx, z3.BoolVal(isnan))))
+
+    def __repr__(self): return "SNDArray"
 
 
 class SArr(SV):
